@@ -176,8 +176,9 @@ def decode_stack(a, key):
 class Replayer:
     """Executes one spec behaviour (a `path`: sequence of [l, v, sh]) on a real StateManager."""
 
-    def __init__(self, SM, np, tmpdir, impl_mode=False):
+    def __init__(self, SM, np, tmpdir, impl_mode=False, muted=()):
         self.SM, self.np, self.tmp = SM, np, tmpdir
+        self.muted = set(muted)      # accessors already reported: what they return is not overwritten by the observer
         self.impl_mode = impl_mode   # True: only drive + compare views with the code-shaped spec (no verdicts)
         self.sm = None
         self.d = None                # the export dict the caller holds
@@ -505,7 +506,7 @@ class Replayer:
                     raise Diverged("appendonly:" + op, f"step {n} ({fmt(l)}) altered earlier beta history")
             prev = view
             # (4) overwrite everything the accessors just returned, read again
-            objs = self.flatten([o for _, o in got], [])
+            objs = self.flatten([o for name, o in got if name not in self.muted], [])
             self.check_alias_named(got, op)
             self.scribble_objs(free + objs)
             try:
@@ -514,7 +515,7 @@ class Replayer:
                 raise
             except Exception as ex:
                 raise Diverged("stable:" + self.blame(free, site, got), f"a getter raised {ex!r} after the caller overwrote what the accessors returned after {op}")
-            self.scribble_objs(self.flatten([o for _, o in got2], []))
+            self.scribble_objs(self.flatten([o for name, o in got2 if name not in self.muted], []))
             if norm_view(view2) != norm_view(view):
                 raise Diverged("stable:" + self.blame(free, site, got),
                                f"step {n} ({fmt(l)}): after overwriting the returned objects the accessors return {diff(view2, view)}")
@@ -575,3 +576,202 @@ def fmt(l):
     if l["i"]:
         a.append(f"i={l['i']}")
     return s + "(" + ",".join(a) + ")"
+
+
+OBSERVER_ACCESSORS = ("get_current", "get_history", "get_last_history", "compute_results", "compute_logw_and_logz")
+
+
+def replay_chunk(paths):
+    """worker: replay a list of behaviours on real StateManagers; returns aggregated findings"""
+    core.import_repo()
+    import numpy as np
+    from tempest.state_manager import StateManager
+
+    tmp = tempfile.mkdtemp(prefix="c17_", dir=os.environ.get("VERIF_SCRATCH") or None)
+    out = {"viol": {}, "count": {}, "behaviours": 0, "steps": 0, "scribbles": 0, "nontrivial": 0, "inconclusive": 0}
+
+    def note(key, what, path, upto=None):
+        out["count"][key] = out["count"].get(key, 0) + 1
+        ops = [fmt(e["l"]) for e in path]
+        if key not in out["viol"] or len(ops) < len(out["viol"][key][1]):
+            out["viol"][key] = (what, ops)
+
+    try:
+        for path in paths:
+            muted = set()
+            for _attempt in range(len(OBSERVER_ACCESSORS) + 1):
+                rp = Replayer(StateManager, np, tmp, muted=muted)
+                again = False
+                try:
+                    rp.run(path)
+                except Inconclusive:
+                    out["inconclusive"] += 1
+                except Diverged as dv:
+                    note(dv.key, dv.what, path[: rp.steps + 1])
+                    acc = dv.key.split(":", 1)[1]
+                    if dv.key.startswith("stable:") and acc in OBSERVER_ACCESSORS and acc not in muted:
+                        muted.add(acc)   # keep going: do not let one aliasing accessor hide the others
+                        again = True
+                for key, what in rp.alias:
+                    note(key, what, path[: rp.steps + 1])
+                if not again:
+                    break
+            out["behaviours"] += 1
+            out["steps"] += rp.steps
+            out["scribbles"] += rp.scribbles
+            out["nontrivial"] += 1 if rp.nontrivial else 0
+    finally:
+        shutil.rmtree(tmp, ignore_errors=True)
+    return out
+
+
+def replay_all(paths, procs=8):
+    paths = list(paths)
+    if not paths:
+        return {"viol": {}, "count": {}, "behaviours": 0, "steps": 0, "scribbles": 0, "nontrivial": 0, "inconclusive": 0}
+    nchunk = max(1, min(len(paths), procs * 8))
+    chunks = [paths[i::nchunk] for i in range(nchunk)]
+    if procs <= 1 or len(paths) < 64:
+        parts = [replay_chunk(c) for c in chunks]
+    else:
+        with mp.get_context("fork").Pool(procs) as pool:
+            parts = pool.map(replay_chunk, chunks)
+    tot = {"viol": {}, "count": {}, "behaviours": 0, "steps": 0, "scribbles": 0, "nontrivial": 0, "inconclusive": 0}
+    for p in parts:
+        for k in ("behaviours", "steps", "scribbles", "nontrivial", "inconclusive"):
+            tot[k] += p[k]
+        for k, n in p["count"].items():
+            tot["count"][k] = tot["count"].get(k, 0) + n
+        for k, (what, ops) in p["viol"].items():
+            if k not in tot["viol"] or (len(ops), ops) < (len(tot["viol"][k][1]), tot["viol"][k][1]):
+                tot["viol"][k] = (what, ops)
+    return tot
+
+
+# --------------------------------------------------------------------------- the component part
+def component_part(ck) -> dict:
+    core.import_repo()
+    import numpy as np
+    from tempest.state_manager import StateManager
+
+    quick = ck.tier == "quick"
+    depth_full = 4 if quick else 5            # exhaustive, all actions incl. getters
+    depth_deep = 5 if quick else 6            # exhaustive, getters left out (heap no-ops), coarse labels
+    enum_len = 3 if quick else 4              # every operation sequence up to this length is replayed
+    nsim, sim_depth = (300, 8) if quick else (4000, 10)
+    runs, errs = {}, []
+
+    def job(name, **kw):
+        try:
+            runs[name] = tlc.run_tlc("StateHeap", kw.pop("cfg"), **kw)
+        except BaseException as ex:  # re-raised in the main thread
+            errs.append((name, ex))
+
+    jobs = {
+        "intended_full": dict(cfg=cfg(False, depth_full, False, True, True), coverage=True, workers=6),
+        "intended_deep": dict(cfg=cfg(False, depth_deep, False, False, False), workers=6),
+        "impl_reach": dict(cfg=cfg(True, 3, False, False, True, props=["INVARIANT TypeOK"]), coverage=True, workers=2),
+        "enum": dict(cfg=cfg(False, enum_len, True, False, True, props=["INVARIANT TypeOK"]), dump=True, workers=4),
+        "sim": dict(cfg=cfg(False, sim_depth, True, True, True, props=["INVARIANT TypeOK", "INVARIANT NoAlias"]),
+                    simulate=f"num={nsim}", depth=sim_depth + 2, seed=ck.seed + 17, workers=2),
+    }
+    for prop in ("INVARIANT NoAlias", "PROPERTY Stable", "PROPERTY AppendOnly", "INVARIANT CacheCoherent"):
+        jobs["impl_" + prop.split()[1]] = dict(cfg=cfg(True, 6, True, False, True, props=[prop]), workers=2)
+    ths = [threading.Thread(target=job, args=(n,), kwargs=kw) for n, kw in jobs.items()]
+    for t in ths:
+        t.start()
+    for t in ths:
+        t.join()
+    try:
+        if errs:
+            raise errs[0][1]
+        # ---- TLC verdicts on the specification
+        for name in ("intended_full", "intended_deep", "enum", "sim", "impl_reach"):
+            r = runs[name]
+            if r.status != "ok":
+                raise RuntimeError(f"StateHeap.tla: {r.violated} violated in run {name} (the intended semantics must satisfy "
+                                   f"its own properties): {[fmt(s['last']) for _, s in r.error_trace if 'last' in s]}")
+        cov = action_coverage(runs["intended_full"].stdout)
+        cov_impl = action_coverage(runs["impl_reach"].stdout)
+        never = [a for a in ACTIONS if cov.get(a, (0, 0))[1] == 0 and cov_impl.get(a, (0, 0))[1] == 0]
+        if never:
+            raise RuntimeError(f"vacuous model: actions never taken: {never}")
+        # ---- code-shaped semantics: shortest counterexamples, and whether the real code follows them
+        cex = {}
+        tmp = tempfile.mkdtemp(prefix="c17_", dir=os.environ.get("VERIF_SCRATCH") or None)
+        for prop in ("NoAlias", "Stable", "AppendOnly", "CacheCoherent"):
+            r = runs["impl_" + prop]
+            if r.status != "violation" or r.violated != prop:
+                raise RuntimeError(f"code-shaped semantics does not violate {prop} (status {r.status} {r.violated})")
+            path = r.error_trace[-1][1]["path"]
+            try:
+                Replayer(StateManager, np, tmp, impl_mode=True).run(path)
+                follows = True
+            except Exception:
+                follows = False
+            cex[prop] = {"trace": [fmt(e["l"]) for e in path], "real_code_follows_code_shaped_spec": follows}
+        shutil.rmtree(tmp, ignore_errors=True)
+        # ---- binding B: every enumerated / simulated behaviour on the real StateManager
+        paths = list(iter_paths(runs["enum"].dump_path, want_len=enum_len + 1))
+        n_enum = len(paths)
+        simp = sim_paths(runs["sim"])
+        paths += simp
+        tot = replay_all(paths, procs=8)
+    finally:
+        for r in runs.values():
+            r.cleanup()
+    for key in sorted(tot["viol"], key=lambda k: (len(tot["viol"][k][1]), k)):
+        what, ops = tot["viol"][key]
+        ck.violation(key, f"{what} [{tot['count'][key]} behaviours]", {"ops": ops, "how": "execute ops on a fresh StateManager (checks/c17.py Replayer)"})
+    for p in paths[:: max(1, len(paths) // 4)][:4]:
+        ck.sample({"ops": [fmt(e["l"]) for e in p], "final_view": p[-1]["v"]})
+    fullr, deepr = runs["intended_full"], runs["intended_deep"]
+    return {
+        "states": fullr.distinct + deepr.distinct,
+        "transitions": fullr.generated + deepr.generated,
+        "tlc_runs": {n: {"status": r.status, "violated": r.violated, "distinct": r.distinct, "generated": r.generated,
+                         "depth": r.depth, "wall_s": round(r.wall_s, 1)} for n, r in runs.items()},
+        "traces_validated_against_impl": tot["behaviours"],
+        "enumerated_sequences": n_enum,
+        "simulated_behaviours": len(simp),
+        "evaluations": tot["steps"],
+        "caller_overwrites": tot["scribbles"],
+        "distinct_nontrivial": tot["nontrivial"],
+        "inconclusive_optin_not_honoured": tot["inconclusive"],
+        "violating_behaviours_by_key": tot["count"],
+        "rule": "non-trivial = the behaviour contains a spec-level CallerScribble of an object the caller still holds "
+                "(export dict entry, opt-in array, list); in addition every object returned by every accessor is overwritten "
+                "after every step of every behaviour (caller_overwrites counts objects)",
+        "exhaustive": True,
+        "bounds": {"array_keys": 2, "scalar_keys": 1, "max_commits": 2, "depth_all_actions": depth_full,
+                   "depth_without_getters": depth_deep, "enumerated_sequence_length": enum_len,
+                   "simulation": [len(simp), sim_depth]},
+        "tlc_coverage": {a: list(cov.get(a, (0, 0))) for a in ACTIONS},
+        "tlc_coverage_code_shaped": {a: list(cov_impl.get(a, (0, 0))) for a in ACTIONS},
+        "code_shaped_counterexamples": cex,
+    }
+
+
+def system_part(ck) -> dict:
+    """Binding A (Sampler level): real runs whose driver overwrites, between iterations, everything returned by
+    sample() / results() / posterior() / state.to_dict() / the getters, pair-validated against an unscribbled
+    twin.  Built separately; returns its evidence dict and reports through ck.violation like component_part."""
+    return {}
+
+
+def main():
+    ck = core.Check("C17", "model_checking")
+    ev = component_part(ck)
+    sysev = system_part(ck)
+    if sysev:
+        ev["system"] = sysev
+    ck.assumptions += [
+        "numpy.shares_memory is exact for the arrays involved; identity (`is`) decides sharing of lists and dicts",
+        "scalars and None are immutable and cannot alias",
+        "copy=False in set_current/update_current is the documented opt-in: the caller's array is internal by the caller's choice",
+    ]
+    ck.finish(ev)
+
+
+if __name__ == "__main__":
+    core.main_guard(main)
